@@ -35,7 +35,7 @@ PROPS = {
              "to itself, is Spec.apply of the position, mover not in check); make_checked_no_trap; tryUnchecked_eq (apply-and-test agrees "
              "with is_legal_unchecked); make_uci_valid, make_ucistr_iff (UCI value / string accepted iff it spells a legal move); "
              "refusal_restores; backbone: make_shape, valid_make",
-             ["SAN make-likes (san::Move, San<S>): proved in Props/C09 (san_make_likes, makeSan_valid, makeSan_no_trap) — listed with C09's evidence",
+             ["SAN make-likes (san::Move, San<S>): proved — Props/C02_san (make_san_ok, make_san_valid)",
               "'semilegal' = the rules' pseudo-legal set: proved in C06 (semilegalGen_eq_pseudo)",
               "push through a move chain: C13 (proved)"],
              "Lean 4 theorems over all valid boards and all well-formed moves / all byte strings; differential on five move-like inputs × positions ties the model to the code",
@@ -50,7 +50,7 @@ PROPS = {
     "C04": P("proof", "unmake_make: for every board whose derived state is consistent and every move satisfying the per-kind "
              "precondition MakeOk (implied by well-formed+semilegal, true for the null move), unmake(make b mv) = b in all fields "
              "(cells, side, rights, ep, both counters, hash, white, black, all, 13 piece sets); nested sequences by induction",
-             ["MakeOk from (well-formed ∧ semilegal ∧ Shape) is shown per kind only for the kinds listed in Props/C04"],
+             [],
              "Lean 4 theorem about the Impl model of do_make_move/do_unmake_move (all 10 move kinds), tied by differential correspondence",
              "§5, §6 C04"),
     "C05": P("proof", "make_consistent: make_move_unchecked preserves (stored hash, colour sets, combined set, 13 piece sets) = "
@@ -100,7 +100,7 @@ PROPS = {
              "uci_parse_lang: the reader accepts exactly the writer's image; uci_semilegal_iff / uci_legal_iff: the checking readers "
              "return mv exactly when mv is a well-formed semilegal (resp. legal by is_legal_unchecked) move spelled by the string; "
              "uci_null_refused; uci_roundtrip_valid through bytes for validated positions",
-             ["'legal' in uci_legal_iff is the implementation's is_legal_unchecked; its agreement with the rules is C01/C02 (differential)"],
+             [],
              "Lean 4 theorems over all boards with Shape and all byte strings; differential on all 20,481 UCI strings × sampled positions ties the model to the code",
              "§6 C10", 0.5),
     "C11": P("proof", "validate_ok_iff: conversion succeeds exactly when Spec.ValidRaw holds (one king and ≤16 men each, no pawn on a "
@@ -112,8 +112,8 @@ PROPS = {
     "C12": P("proof", "no modelled parser reaches a panic site, for ALL byte strings: fen_total, fen_board_total, uci_total, san_total, "
              "the four base-type parsers; uci_in_position_total and san_in_position_total in every validated board (all three UCI readers, "
              "SAN resolution incl. candidate search); reparse for coord/cell/colour/rights/UCI",
-             ["reparse clause for SAN and FEN values is differential-only (rt= flag on the implementation)",
-              "push_uci_list totality beyond the first token needs 'a legal move keeps both kings' (differential-only)"],
+             ["reparse clause: FEN proved (C08.fen_parse_format_parse); SAN values differential-only (rt= flag on the implementation)",
+              "push_uci_list totality at every token: proved in Props/C12_chain (pushUciList_no_trap, makeUciStr_no_trap) over the C13 invariant"],
              "Lean 4 theorems over byte-level parser models with explicit trap results (loop invariant for parse_cells, case analysis "
              "for the SAN/UCI grammars, king existence from the validation theorems)", "§6 C12", 1.0),
     "C13": P("proof", "ops_inv: after ANY sequence of pushes (moves, UCI values, UCI strings, UCI lists, SAN values, SAN strings; legal or not), pops and outcome "
@@ -173,12 +173,12 @@ PROPS = {
              "indexed by a bounded type; the unchecked square additions of the validator / make-move stay on the board (per-rank facts)",
              ["semilegal_count_le_256 (SemilegalCountBound) is stated but NOT proved: extremal-combinatorics clause, supported only by "
               "hill-climbing search through the safe Vec sink and debug-build runs (DESIGN §9)",
-              "the pawn generators' dst-delta sites are differential-only"],
+              "(the pawn generators' dst-delta sites: proved in Props/C19_gen)"],
              "Lean 4 theorems for index ranges; debug-build differential (std unsafe-precondition checks, arrayvec debug_assert) for the rest",
              "§6 C19"),
     "C20": P("proof", "index/text round trips for every value of every finite type; parsers accept exactly the documented spellings (all byte "
              "strings, for coord/cell/colour); rights set algebra; bitboard operations = set operations; ascending iteration (as a filter); "
              "named rank/file/diag/antidiag/light/dark constants contain exactly the named squares (extracted values); shift/add/flips vs geometry",
-             ["bit-loop models (Iter::next, deposit_bits, flips via swap_bytes/reverse_bits) are differential-only so far"],
+             [],
              "Lean 4 theorems (decide over the finite types, BitVec lemmas, decide +kernel on extracted constants)", "§6 C20"),
 }
